@@ -272,6 +272,15 @@ func (loc *Location) ExecAction(ctx *Context, bs Bindings, a Action) (interface{
 
 	Log(INFO, ctx, "core.ExecAction", "action", a)
 
+	// The actions of a rule run concurrently and are all handed the
+	// same Bindings; maybeCopyEvent (below) writes to the map, so
+	// each execution works on its own (shallow) copy.
+	own := make(Bindings, len(bs))
+	for k, v := range bs {
+		own[k] = v
+	}
+	bs = own
+
 	f, err := loc.getActionFunc(ctx, bs, a)
 
 	if nil != err {
